@@ -1,7 +1,7 @@
 (* C04: whatever the Staircase constructor accepts from pointwise ordered bounds is well formed, every modelled operation
    hands ordered bounds to the constructor, hence every expression of any depth evaluates to a well-formed p-box or raises. *)
 From Coq Require Import Reals Lra List Arith Lia Bool Permutation Sorted.
-From PUN Require Import Base.Num Base.Sort Model.Interval Model.Pbox Model.PboxArith Model.PExpr
+From PUN Require Import Base.Num Base.Sort Model.Interval Model.Pbox Model.PboxArith Gen.GenGlue Model.PExpr
   Proofs.ListR Proofs.PboxWF Proofs.PboxUnary Proofs.Hull Proofs.DepOps Proofs.Lattice Proofs.Iso.
 Import ListNotations.
 Open Scope R_scope.
@@ -331,31 +331,49 @@ Lemma classic_add_total_wf p q r : classic_add RN steps plo phi p q = Ok r -> WF
 Proof. unfold classic_add. destruct (frechet_op _ _ _ _ _ _) as [l r']. unfold mk_staircase. apply mk_total_wf. Qed.
 Lemma pimp_total_wf p q r : pimp RN steps plo phi p q = Ok r -> WFs r.
 Proof. unfold pimp. cbn zeta. destruct (existsb _ _); [discriminate|]. unfold mk_staircase_lists. apply mk_total_wf. Qed.
-Lemma frechet_mul_signed_wf p q r : frechet_mul_signed RN steps plo phi p q = Ok r -> WFs r.
+(* the translated glue (Gen/GenGlue.v): every route ends in the constructor, a negation, a number operation or an imposition *)
+Lemma gen_classic_wf p q op r : gen_classic_frechet_pbox RN steps plo phi p q op = Ok r -> WFs r.
+Proof. unfold gen_classic_frechet_pbox. destruct (frechet_op _ _ _ _ _ _) as [l r']. destruct (mk_staircase RN steps plo phi l r') as [x| |] eqn:E; cbn [rbind]; try discriminate.
+  intros H; inversion H; subst. unfold mk_staircase in E. eapply mk_total_wf; exact E. Qed.
+Lemma gen_naive_wf p q op r : gen_vectorised_naive_frechet_pbox RN steps plo phi p q op = Ok r -> WFs r.
+Proof. unfold gen_vectorised_naive_frechet_pbox. destruct (naive_frechet_op _ _ _ _ _ _) as [l r']. destruct (mk_staircase RN steps plo phi l r') as [x| |] eqn:E; cbn [rbind]; try discriminate.
+  intros H; inversion H; subst. unfold mk_staircase in E. eapply mk_total_wf; exact E. Qed.
+Ltac bind_step := match goal with |- rbind ?x _ = _ -> _ => let E := fresh "E" in destruct x as [?| |] eqn:E; cbn [rbind]; try discriminate end.
+Lemma gen_nagative_wf p q r : gen_nagative_frechet_pbox RN steps plo phi p q = Ok r -> WFs r.
 Proof.
-  unfold frechet_mul_signed. destruct (_ || _); [|apply classic_mul_total_wf].
-  destruct (if nleb RN (p_hi_ RN p) nzero then _ else _) as [a| |]; cbn [rbind]; try discriminate.
-  destruct (if nleb RN (p_hi_ RN q) nzero then _ else _) as [b| |]; cbn [rbind]; try discriminate.
-  destruct (classic_mul RN steps plo phi a b) as [c| |] eqn:Ec; cbn [rbind]; try discriminate.
-  destruct (xorb _ _); [apply pneg_total_wf | intros E; inversion E; subst; eapply classic_mul_total_wf; exact Ec].
+  unfold gen_nagative_frechet_pbox. destruct (_ || _); [|discriminate]. repeat bind_step.
+  destruct (xorb _ _); [apply pneg_total_wf|]. intros H; inversion H; subst. eapply gen_classic_wf; eassumption.
 Qed.
-Lemma balchprod_wf p q r : balchprod RN steps plo phi p q = Ok r -> WFs r.
+Lemma gen_balchprod_wf fuel : (forall p q r, gen_frechet_pbox_mul RN steps plo phi fuel p q = Ok r -> WFs r) ->
+  forall a b c, gen_balchprod RN steps plo phi fuel a b = Ok c -> WFs c.
 Proof.
-  unfold balchprod. destruct (straddles_zero RN p && straddles_zero RN q).
-  - repeat (match goal with |- rbind ?x _ = _ -> _ => destruct x as [?| |]; cbn [rbind]; try discriminate end). apply pnum_total_wf.
-  - destruct (straddles_zero RN p); [discriminate|]. destruct (straddles_zero RN q); [|apply frechet_mul_signed_wf].
-    repeat (match goal with |- rbind ?x _ = _ -> _ => destruct x as [?| |]; cbn [rbind]; try discriminate end). apply classic_add_total_wf.
+  intros IH a b c. unfold gen_balchprod. destruct (_ && _).
+  - cbv zeta. repeat bind_step. apply pnum_total_wf.
+  - destruct (PboxBase.straddles_zero RN a).
+    + cbv zeta. repeat bind_step. apply IH.
+    + destruct (PboxBase.straddles_zero RN b); [|apply IH]. cbv zeta. repeat bind_step. apply gen_classic_wf.
 Qed.
-Lemma straddle_mul_wf p q r : straddle_mul RN steps plo phi p q = Ok r -> WFs r.
+Lemma gen_straddle_wf fuel : (forall p q r, gen_frechet_pbox_mul RN steps plo phi fuel p q = Ok r -> WFs r) ->
+  forall a b c, gen_straddle_frechet_pbox RN steps plo phi fuel a b = Ok c -> WFs c.
 Proof.
-  unfold straddle_mul. destruct (naive_mul RN steps plo phi p q) as [nv| |]; cbn [rbind]; try discriminate.
-  destruct (balchprod RN steps plo phi p q) as [bp| |]; cbn [rbind]; try discriminate. apply pimp_total_wf.
+  intros IH a b c. unfold gen_straddle_frechet_pbox. repeat bind_step. intros H; inversion H; subst. eapply pimp_total_wf; eassumption.
+Qed.
+(* one unfolding of the translated Fixpoint, in terms of the translated top-level functions *)
+Lemma gen_frechet_pbox_mul_S fuel p q : gen_frechet_pbox_mul RN steps plo phi (S fuel) p q =
+  if PboxBase.straddles_zero RN p || PboxBase.straddles_zero RN q then
+    (if PboxBase.straddles_zero RN q then gen_straddle_frechet_pbox RN steps plo phi fuel p q else gen_straddle_frechet_pbox RN steps plo phi fuel q p)
+  else if nleb RN (PboxBase.p_hi_ RN p) nzero || nleb RN (PboxBase.p_hi_ RN q) nzero then gen_nagative_frechet_pbox RN steps plo phi p q
+  else gen_classic_frechet_pbox RN steps plo phi p q (nmul RN).
+Proof. reflexivity. Qed.
+Lemma gen_frechet_pbox_mul_wf fuel : forall p q r, gen_frechet_pbox_mul RN steps plo phi fuel p q = Ok r -> WFs r.
+Proof.
+  induction fuel as [|fuel IH]; intros p q r; [discriminate|]. rewrite gen_frechet_pbox_mul_S.
+  destruct (_ || _).
+  - destruct (PboxBase.straddles_zero RN q); apply (gen_straddle_wf fuel IH).
+  - destruct (_ || _); [apply gen_nagative_wf|apply gen_classic_wf].
 Qed.
 Lemma frechet_mul_wf p q r : (0 < steps)%nat -> WFs p -> WFs q -> frechet_mul RN steps plo phi p q = Ok r -> WFs r.
-Proof.
-  intros _ _ _. unfold frechet_mul. destruct (_ || _); [|apply frechet_mul_signed_wf].
-  destruct (straddles_zero RN q); apply straddle_mul_wf.
-Qed.
+Proof. intros _ _ _. unfold frechet_mul. apply gen_frechet_pbox_mul_wf. Qed.
 Lemma pmul_nf_wf d p q r : d <> DF -> WFs p -> WFs q ->
   (let '(l, r') := dep_op RN d Rmult (fst p) (snd p) (fst q) (snd q) in mkS l r') = Ok r -> WFs r.
 Proof.
@@ -371,7 +389,7 @@ Proof.
 Qed.
 Lemma one_over_wf q r : WFs q -> one_over RN steps plo phi q = Ok r -> WFs r.
 Proof.
-  intros Wq E. unfold one_over in E. destruct (precip RN steps plo phi q) as [rq| |] eqn:G; cbn [rbind] in E; try discriminate.
+  intros Wq E. unfold one_over, prdiv in E. destruct (precip RN steps plo phi q) as [rq| |] eqn:G; cbn [rbind] in E; try discriminate.
   destruct (pnum RN steps plo phi (nmul RN) rq none) as [x| |] eqn:G2; try discriminate. inversion E; subst.
   eapply pnum_wf; [eapply precip_wf; eauto| |exact G2]. left. intros a b Hab. cbn [nmul RN]. unfold none; cbn [nofZ RN T]. lra.
 Qed.
